@@ -32,6 +32,7 @@ struct GenOpts
     bool allow_zero_calls = true;
     bool allow_degenerate = true;   // identically zero / constant integrands
     bool allow_high_dims = false;
+    bool allow_tiny = false;        // magnitudes in the subnormal range of the numeric type
     int nt = -1;
 };
 
@@ -60,6 +61,8 @@ bool durability_check(Plan const& p, IWorld& fresh_world, ChkptView const& befor
     Report& rep, char const* where);
 
 std::string key_of(Plan const& p);
+// binary exponent that puts values of order one into the subnormal range of the plan's numeric type
+int tiny_exponent(Rng& r, int nt);
 // the feature of the plan that is known to matter for text round trips (empty if none)
 std::string roundtrip_class(Plan const& p);
 
